@@ -388,7 +388,14 @@ def decide(prop, tier, seed, t0):
             violations.append((path, " no-failing-input-found"))
 
     wall = time.time() - t0
-    distinct = len(set(input_key(r["_sexp"]) + "|" + str(r.get("variant")) for r in applicable))
+    # non-trivial: the property's predicate applied to the case AND was evaluated on the implementation's own expansion
+    # (shape understood); distinct: by (variant, attribute tokens, input tokens)
+    def nontrivial(r):
+        v = r.get(prop)
+        if prop in ITEM_VIEW_PROPS:
+            return bool(v) and v[0] == "1" and v[1] == "1"
+        return True
+    distinct = len(set(input_key(r["_sexp"]) + "|" + str(r.get("variant")) for r in applicable if nontrivial(r)))
     samples = []
     rng = random.Random(seed)
     for r in rng.sample(applicable, min(3, len(applicable))):
@@ -408,7 +415,7 @@ def decide(prop, tier, seed, t0):
             "obligations": audit["obligations"], "discharged": audit["discharged"], "checker_cmd": audit["checker_cmd"],
             "trusted_base": TRUSTED_BASE, "theorems": audit["theorems"], "proof_problems": audit["problems"],
             "evaluations": len(applicable) + extra_evals, "distinct_nontrivial": distinct,
-            "rule": RULES.get(prop, ""), "samples": samples or [{"note": "no applicable case in this corpus"}],
+            "rule": RULES.get(prop, "") + " | counted as non-trivial: a recorded invocation to which the property's predicate applies and whose real expansion it could evaluate; distinct by (variant, attribute tokens, input tokens)", "samples": samples or [{"note": "no applicable case in this corpus"}],
             "traces_validated_against_impl": len(rows),
             "records_total": len(rows), "records_token_exact_model_eq_impl": sum(1 for r in rows if r.get("agree")),
             "records_undecodable": len(machinery_rows),
